@@ -28,6 +28,12 @@ const (
 	batchSize = 1024
 )
 
+var (
+	// values of the keys in the local KV store: empty for a key not uploaded to an index chunk yet
+	markUploaded  = []byte("X") // uploaded to an index chunk by this run
+	markPreloaded = []byte("P") // reloaded from an index chunk uploaded by a previous run
+)
+
 type (
 	PurgeIndex struct {
 		IndexTime  time.Time
@@ -542,8 +548,19 @@ func bundleKeys(ctx context.Context, b *Bundle, size uint32, db kvStore, logger 
 		}
 
 		if found {
-			// the root key is found in store, no need to unpack it: we necessarily have all its leaves in store
-			continue
+			val, erg := db.Get([]byte(key))
+			if erg != nil {
+				return nil, erg
+			}
+			if !bytes.Equal(val, markPreloaded) {
+				// the root key is found in store, no need to unpack it: we necessarily have all its leaves in store
+				continue
+			}
+			// The root key has been reloaded from the index chunks of an interrupted run (resume): its leaves
+			// may have been bound to chunks that were never uploaded. Unpack it again, but only once.
+			if erg = db.Set([]byte(key), markUploaded); erg != nil {
+				return nil, erg
+			}
 		}
 
 		keys = append(keys, key)
@@ -961,8 +978,8 @@ func loadChunk(ctx context.Context, db kvStore, r io.Reader) (*time.Time, uint64
 			continue
 		}
 
-		// write key to local KV store. Payload is marked as "uploaded", to support the resume use-case.
-		if err := db.Set(key, []byte("X")); err != nil {
+		// write key to local KV store. Payload is marked as "uploaded by a previous run", to support the resume use-case.
+		if err := db.Set(key, markPreloaded); err != nil {
 			return nil, numKeys, err
 		}
 
